@@ -22,6 +22,7 @@ func (s PtrSet) Add(ptr interface{})           { s[ptrOf(ptr)] = null }
 func (s IntSet) Contains(i int) bool           { return s[i] == null }
 func (s StrSet) Contains(str string) bool      { return s[str] == null }
 func (s PtrSet) Contains(ptr interface{}) bool { return s[ptrOf(ptr)] == null }
+func (s PtrSet) Remove(ptr interface{})        { delete(s, ptrOf(ptr)) }
 
 func (p PtrPtrSet) Add(ptr1, ptr2 interface{}) {
 	if p[ptrOf(ptr1)] == nil {
